@@ -163,6 +163,42 @@ Proof.
     + intros [X [Hv HX]]. rewrite E1. eapply Post; eassumption.
 Qed.
 
+Lemma ax_inU S v : shaped L S -> mem L (eval_ax G U S st) v = true -> mem L U v = true.
+Proof.
+  intros HS H. unfold eval_ax in H. rewrite mem_eval_neg in H
+    by shp.
+  apply andb_true_iff in H. tauto.
+Qed.
+
+
+(** states of the unit outside the computed EG set reach the complement on every path *)
+Theorem eg_compl phi r : shaped L phi -> inU phi ->
+  eval_eg G phi st = Ok r ->
+  forall v, mem L U v = true -> mem L r v = false ->
+            AUs G (fun _ => True) (fun w => mem L U w = true /\ mem L phi w = false) v.
+Proof.
+  intros Hphi HU H. unfold eval_eg in H. apply while_neq_spec in H.
+  assert (Iter : forall j v, mem L U v = true -> mem L (Nat.iter j Feg phi) v = false ->
+            AUs G (fun _ => True) (fun w => mem L U w = true /\ mem L phi w = false) v).
+  { induction j as [|j IHj]; intros v Hu Hv; simpl in Hv.
+    - apply AUs_here. auto.
+    - unfold Feg in Hv at 1. rewrite mem_tand in Hv by shp.
+      apply andb_false_iff in Hv. destruct Hv as [Hv|Hv]; [apply IHj; assumption|].
+      destruct (mem L (Nat.iter j Feg phi) v) eqn:Ev; [|apply IHj; assumption].
+      assert (IU : inU (Nat.iter j Feg phi)).
+      { intros w Hw. apply HU. eapply iter_Feg_sub; eassumption. }
+      assert (NE : ~ EXs G (M (Nat.iter j Feg phi)) v).
+      { intro X. apply ex_correct in X; [congruence | shp | exact IU]. }
+      apply AUs_step; [exact I | |].
+      + intros i Hi He. apply IHj; [rewrite U_moves; exact Hu|].
+        destruct (mem L (Nat.iter j Feg phi) (vflip (TS i) v)) eqn:E2; [|reflexivity].
+        exfalso. apply NE. left. exists i. auto.
+      + intro Hs. exfalso. apply NE. right. split; [exact Hs | exact Ev]. }
+  destruct H as [[E1 E2]|[j [E1 E2]]].
+  - intros v Hu _. apply AUs_here. split; [assumption|]. rewrite E1. apply mem_empty.
+  - intros v Hu Hv. apply (Iter j); [assumption|]. rewrite E1 in Hv. exact Hv.
+Qed.
+
 (** ---- AU ---- *)
 Section AU.
 Variable phi1 : tt.
@@ -178,13 +214,6 @@ Lemma iter_Fau_shaped j S : shaped L S -> shaped L (Nat.iter j Fau S).
 Proof. intro H. induction j; simpl; [assumption | apply Fau_shaped; assumption]. Qed.
 
 Ltac shp_extra ::= first [apply iter_Fau_shaped | apply Fau_shaped].
-
-Lemma ax_inU S v : shaped L S -> mem L (eval_ax G U S st) v = true -> mem L U v = true.
-Proof.
-  intros HS H. unfold eval_ax in H. rewrite mem_eval_neg in H
-    by shp.
-  apply andb_true_iff in H. tauto.
-Qed.
 
 Theorem au_correct phi2 r : shaped L phi2 -> inU phi2 ->
   eval_au G U phi1 phi2 st = Ok r ->
